@@ -55,8 +55,10 @@ type baseTrafficShapingController struct {
 }
 
 func newBaseTrafficShapingControllerWithMetric(r *Rule, metric *ParamsMetric) *baseTrafficShapingController {
-	if r.SpecificItems == nil {
-		r.SpecificItems = make(map[interface{}]int64)
+	// a nil SpecificItems is replaced in the controller only: the caller's rule must stay as it was loaded
+	specificItems := r.SpecificItems
+	if specificItems == nil {
+		specificItems = make(map[interface{}]int64)
 	}
 	return &baseTrafficShapingController{
 		r:             r,
@@ -65,7 +67,7 @@ func newBaseTrafficShapingControllerWithMetric(r *Rule, metric *ParamsMetric) *b
 		paramIndex:    r.ParamIndex,
 		paramKey:      r.ParamKey,
 		threshold:     r.Threshold,
-		specificItems: r.SpecificItems,
+		specificItems: specificItems,
 		durationInSec: r.DurationInSec,
 		metric:        metric,
 	}
